@@ -188,6 +188,22 @@ class Row:
 AFFINITY = {'INTEGER': 'INTEGER', 'INT': 'INTEGER', 'REAL': 'REAL', 'TEXT': 'TEXT', 'BLOB': 'NONE', None: 'NONE'}
 
 
+def affinity_of(typename):
+    """SQLite's rule for the affinity of a declared column type (datatype3.html, 3.1): substring tests in this order"""
+    if typename is None:
+        return 'NONE'
+    u = typename.upper()
+    if 'INT' in u:
+        return 'INTEGER'
+    if 'CHAR' in u or 'CLOB' in u or 'TEXT' in u:
+        return 'TEXT'
+    if 'BLOB' in u:
+        return 'NONE'
+    if 'REAL' in u or 'FLOA' in u or 'DOUB' in u:
+        return 'REAL'
+    return 'NUMERIC'
+
+
 class DBState:
     """the relational content (copy = snapshot)"""
 
@@ -437,6 +453,30 @@ class Connection:
         elif aff == 'TEXT':
             if k in (INT, REAL):
                 raise Unsupported('numeric value stored into TEXT column %s.%s' % (table, col))
+        elif aff == 'NUMERIC':
+            # a declared type that matches none of SQLite's substring rules: integral REALs become INTEGERs, well-formed numeric
+            # text becomes a number
+            if k == REAL:
+                return Cell(IfI(sx.IsInt(cell.num), INT, REAL), cell.num)
+            if k == TEXT:
+                n = sx.simp(cell.num)
+                if sx.isz(n):
+                    raise Unsupported('symbolic text stored into NUMERIC column %s.%s' % (table, col))
+                txt = self.db.intern.lookup(TEXT, n).strip(' \t\n\r\f\v')
+                try:
+                    return Cell(INT, int(txt, 10)) if -2 ** 63 <= int(txt, 10) < 2 ** 63 else Cell(REAL, Fraction(float(txt)))
+                except ValueError:
+                    pass
+                try:
+                    f = float(txt)
+                    if f == f and f not in (float('inf'), float('-inf')) and not any(ch in txt.lower() for ch in ('n', 'i', '_')):
+                        fr = Fraction(f)
+                        return Cell(INT, int(fr)) if fr.denominator == 1 and -2 ** 63 <= fr < 2 ** 63 else Cell(REAL, fr)
+                except ValueError:
+                    pass
+                return cell
+            if k is None:
+                raise Unsupported('value of symbolic storage class stored into NUMERIC column %s.%s' % (table, col))
         return cell
 
     # -- expression evaluation
@@ -864,7 +904,7 @@ class Connection:
             _, name, cols = st
             if name not in state.tables:
                 state.tables[name] = []
-                db.schema[name] = [(c, AFFINITY.get(t, 'NONE')) for c, t, _ in cols]
+                db.schema[name] = [(c, affinity_of(t)) for c, t, _ in cols]
                 if not any(c == 'rowid' for c, _, _ in cols):
                     db.schema[name] = [('rowid', 'INTEGER')] + db.schema[name]
             return Cursor([])
